@@ -229,6 +229,27 @@ def rule_cache(ctx: Ctx):
                 c2 = [norm(h.type) if h.type is not None else "<bare>" for h in t2.handlers]
                 ctx.ob("R-C14-4", f"{q}/scratch-on-failed-load", "AttributeError" in c2 or "Exception" in c2 or "<bare>" in c2,
                        f"setting `.scratch` on an unset database raises AttributeError, which is caught ({c2})", node=t2, mod=tm, nontrivial=False)
+    # R-C14-4b: whatever is read from the cache file is interpreted only by hyperscan.loadb inside the guarded try
+    loads = [n for n in walk_local(db) if isinstance(n, ast.Call) and norm(n.func).endswith("loadb")]
+    okflow, why = bool(loads), "no loadb call"
+    for ld in loads:
+        a0 = ld.args[0] if ld.args else None
+        if not isinstance(a0, ast.Name):
+            okflow, why = False, f"loadb argument `{norm(a0) if a0 is not None else '?'}`"
+            continue
+        defs = [s_ for s_ in stmts_local(db.body) if isinstance(s_, ast.Assign) and norm(s_.targets[0]) == a0.id]
+        if not (len(defs) == 1 and isinstance(defs[0].value, ast.Call) and isinstance(defs[0].value.func, ast.Attribute) and defs[0].value.func.attr == "read_bytes"
+                and not defs[0].value.args):
+            okflow, why = False, f"`{a0.id}` is not the raw result of <cache file>.read_bytes(): {[norm(x)[:60] for x in defs]}"
+            continue
+        other = [n for n in walk_local(db) if isinstance(n, ast.Name) and n.id == a0.id and isinstance(n.ctx, ast.Load)
+                 and not (isinstance(n.parent, ast.Call) and norm(n.parent.func).endswith("loadb"))]
+        if other:
+            okflow, why = False, f"`{a0.id}` is also used by `{norm(other[0].parent)[:50]}`"
+    ctx.ob("R-C14-4", f"{q}/cache-bytes-only-into-guarded-load", okflow,
+           "the bytes of the cache file are handed, unprocessed, only to hyperscan.loadb inside the try whose handlers cover the library's errors; any other "
+           f"interpretation of a possibly truncated/corrupted file (header parsing, checksums, helpers) can raise something the handlers do not cover ({why})",
+           node=loads[0] if loads else db, mod=tm)
     # R-C14-6 cache key: both lists, order-preserving
     fp = [s for s in stmts_local(db.body) if isinstance(s, ast.Assign) and norm(s.targets[0]) == "fingerprint"]
     comp_call = [n for n in walk_local(db) if isinstance(n, ast.Call) and norm(n.func).endswith(".compile")]
